@@ -20,11 +20,10 @@ structure Inv (s : State) : Prop where
   writePt : ∀ (t : Nat) (k : Nat) v, s.pc t = .dWrite k v →
     (s.key k).owner = some t ∧ (s.key k).done = 0 ∧ (s.key k).fcalls = 1 ∧ (s.key k).fret = some v
   storePt : ∀ (t : Nat) (k : Nat), s.pc t = .dStore k →
-    (s.key k).owner = some t ∧ (s.key k).done = 0 ∧ (s.key k).fcalls = 1 ∧ (s.key k).result = (s.key k).fret ∧
-    (s.key k).fret.isSome = true
+    (s.key k).owner = some t ∧ (s.key k).done = 0 ∧ (s.key k).fcalls = 1 ∧ (s.key k).fret = some (s.key k).result
   unlockPt : ∀ (t : Nat) (k : Nat), s.pc t = .dUnlock k → (s.key k).owner = some t ∧ (s.key k).done = 1
   published : ∀ k : Nat, (s.key k).done = 1 →
-    (s.key k).fcalls = 1 ∧ (s.key k).result = (s.key k).fret ∧ (s.key k).fret.isSome = true
+    (s.key k).fcalls = 1 ∧ (s.key k).fret = some (s.key k).result
   fresh : ∀ k : Nat, (s.key k).done = 0 → (s.key k).fcalls = 0 ∨ ∃ t : Nat, (s.pc t).inCall k = true
   readPt : ∀ (t : Nat) (k : Nat), (s.pc t = .dRet k ∨ s.pc t = .gRet k) → (s.key k).done = 1
 
@@ -99,7 +98,7 @@ theorem inv_plain {s s1 : State} (inv : Inv s) (t : Nat) (p' : Pc)
 
 set_option maxHeartbeats 2000000 in
 /-- the steps that modify an entry -/
-theorem inv_key {s s' : State} {t : Nat} {e : Event} (inv : Inv s) (h : Step s t e s')
+theorem inv_key {c : Cfg} {s s' : State} {t : Nat} {e : Event} (inv : Inv s) (h : Step c s t e s')
     (he : (∃ k b, e = .mapLoadOrStore k b) ∨ (∃ k, e = .lock k) ∨ (∃ k, e = .fEnter k) ∨ (∃ k v, e = .fExit k v) ∨
       (∃ k, e = .write k) ∨ (∃ k v, e = .atomicStore k v) ∨ (∃ k, e = .unlock k)) : Inv s' := by
   obtain ⟨i1, i2, i3, i4, i5, i6, i7, i8, i9, i10⟩ := inv
@@ -109,7 +108,7 @@ theorem inv_key {s s' : State} {t : Nat} {e : Event} (inv : Inv s) (h : Step s t
     | (refine ⟨?_, ?_, ?_, ?_, ?_, ?_, ?_, ?_, ?_, ?_⟩ <;> simp only [setPc_pc, setPc_key, setKey_pc, setKey_key] <;>
         grind [Pc.inCall])
 
-theorem inv_step {s s' : State} {t : Nat} {e : Event} (inv : Inv s) (h : Step s t e s') : Inv s' := by
+theorem inv_step {c : Cfg} {s s' : State} {t : Nat} {e : Event} (inv : Inv s) (h : Step c s t e s') : Inv s' := by
   cases h with
   | start hpc => exact inv_plain inv t _ rfl rfl rfl (by simp [hpc, Pc.inCall])
   | exit hpc _ => exact inv_plain inv t _ rfl rfl rfl (by simp [hpc, Pc.inCall])
@@ -164,17 +163,41 @@ theorem inv_step {s s' : State} {t : Nat} {e : Event} (inv : Inv s) (h : Step s 
       have e : t = t1 := Option.some.inj this
       subst e
       rw [hpc] at h1; simp [Pc.inCall] at h1
-  | dLos hpc => exact inv_key inv (Step.dLos hpc) (Or.inl ⟨_, _, rfl⟩)
-  | dLock hpc ho => exact inv_key inv (Step.dLock hpc ho) (Or.inr (Or.inl ⟨_, rfl⟩))
-  | fEnter hpc => exact inv_key inv (Step.fEnter hpc) (Or.inr (Or.inr (Or.inl ⟨_, rfl⟩)))
-  | fExit hpc => exact inv_key inv (Step.fExit hpc) (Or.inr (Or.inr (Or.inr (Or.inl ⟨_, _, rfl⟩))))
-  | write hpc => exact inv_key inv (Step.write hpc) (Or.inr (Or.inr (Or.inr (Or.inr (Or.inl ⟨_, rfl⟩)))))
-  | store hpc => exact inv_key inv (Step.store hpc) (Or.inr (Or.inr (Or.inr (Or.inr (Or.inr (Or.inl ⟨_, _, rfl⟩))))))
-  | unlock hpc ho => exact inv_key inv (Step.unlock hpc ho) (Or.inr (Or.inr (Or.inr (Or.inr (Or.inr (Or.inr ⟨_, rfl⟩))))))
+  | dLos hpc => exact inv_key (c := c) inv (Step.dLos hpc) (Or.inl ⟨_, _, rfl⟩)
+  | dLock hpc ho => exact inv_key (c := c) inv (Step.dLock hpc ho) (Or.inr (Or.inl ⟨_, rfl⟩))
+  | fEnter hpc => exact inv_key (c := c) inv (Step.fEnter hpc) (Or.inr (Or.inr (Or.inl ⟨_, rfl⟩)))
+  | fExit hpc => exact inv_key (c := c) inv (Step.fExit hpc) (Or.inr (Or.inr (Or.inr (Or.inl ⟨_, _, rfl⟩))))
+  | write hpc => exact inv_key (c := c) inv (Step.write hpc) (Or.inr (Or.inr (Or.inr (Or.inr (Or.inl ⟨_, rfl⟩)))))
+  | store hpc => exact inv_key (c := c) inv (Step.store hpc) (Or.inr (Or.inr (Or.inr (Or.inr (Or.inr (Or.inl ⟨_, _, rfl⟩))))))
+  | unlock hpc ho => exact inv_key (c := c) inv (Step.unlock hpc ho) (Or.inr (Or.inr (Or.inr (Or.inr (Or.inr (Or.inr ⟨_, rfl⟩))))))
 
 theorem inv_reach {c : Cfg} {s : State} (h : Reach c s) : Inv s := by
   induction h with
   | init => exact inv_init c
   | step _ hs ih => exact inv_step ih (step_sound hs)
+
+/-- the values in flight are the ones the scenario's f produces: every value that f is about to return,
+that is about to be written, or that a completed invocation returned for key `k` is `c.fval k 1`
+(the value of the FIRST invocation; `none` for a nil key) -/
+structure ValInv (c : Cfg) (s : State) : Prop where
+  inFVal : ∀ (t : Nat) (k : Nat) v, s.pc t = .dInF k v → v = c.fval k 1
+  writeVal : ∀ (t : Nat) (k : Nat) v, s.pc t = .dWrite k v → v = c.fval k 1
+  fretVal : ∀ (k : Nat) v, (s.key k).fret = some v → v = c.fval k 1
+
+theorem valinv_init (c : Cfg) : ValInv c (init0 c) := by
+  refine ⟨?_, ?_, ?_⟩ <;> simp [init0, K0]
+
+theorem valinv_step {c : Cfg} {s s' : State} {t : Nat} {e : Event} (inv : Inv s) (j : ValInv c s)
+    (h : Step c s t e s') : ValInv c s' := by
+  obtain ⟨j1, j2, j3⟩ := j
+  have i3 := inv.fEnterPt
+  cases h
+  all_goals
+    (refine ⟨?_, ?_, ?_⟩ <;> simp only [setPc_pc, setPc_key, setKey_pc, setKey_key] <;> grind)
+
+theorem valinv_reach {c : Cfg} {s : State} (h : Reach c s) : ValInv c s := by
+  induction h with
+  | init => exact valinv_init c
+  | step hr hs ih => exact valinv_step (inv_reach hr) ih (step_sound hs)
 
 end GIV.ParCache
